@@ -73,6 +73,7 @@ type Contract struct {
 	Line      int
 	Inline    bool
 	ExitHints []*E
+	DynCallee map[string]*Contract // contracts assumed for calls through function-typed parameters
 }
 
 type SpecSet struct {
@@ -91,7 +92,7 @@ func newSpecSet() *SpecSet {
 var directiveKW = map[string]bool{"pure": true, "opaque": true, "axiom": true, "lemma": true, "func": true, "extern": true,
 	"requires": true, "ensures": true, "modifies": true, "loop": true, "use": true, "names": true,
 	"expect_obligations": true, "ghost": true, "at": true, "trusted": true, "property": true, "noreturn": true,
-	"inline": true, "hint": true, "exit": true, "bounded": true}
+	"inline": true, "hint": true, "exit": true, "bounded": true, "callee": true}
 
 // readDirectives returns logical directive lines (continuations joined).
 func readDirectives(path string, prefixed bool) ([]string, []int, error) {
@@ -304,6 +305,8 @@ func (ss *SpecSet) loadSpecFile(path string, prefixed bool, pkgDir string) error
 			key := cur.Key
 			if !cur.Extern {
 				key = pkgDir + "/" + cur.Key
+			} else if pkgDir != "" {
+				key = "@" + pkgDir + "@" + cur.Key // package-local extern contract
 			}
 			if _, dup := ss.Contracts[key]; dup {
 				return fail(i, "duplicate contract %s", key)
@@ -373,6 +376,52 @@ func (ss *SpecSet) loadSpecFile(path string, prefixed bool, pkgDir string) error
 					return fail(i, "expect_obligations >= n")
 				}
 				cur.Expect = n
+			case strings.HasPrefix(d, "callee "):
+				// callee <param>(<pnames>) (<rnames>): pure | modifies ... [; ensures e]*
+				rest := strings.TrimSpace(d[7:])
+				j := strings.Index(rest, ":")
+				if j < 0 {
+					return fail(i, "callee <param>: <clauses>")
+				}
+				hdr, body := strings.TrimSpace(rest[:j]), rest[j+1:]
+				dc := &Contract{Key: "param:" + hdr, Extern: true, Trusted: true, Loops: map[int]*LoopSpec{}}
+				if k := strings.Index(hdr, "("); k >= 0 {
+					m := reFuncHdr.FindStringSubmatch("extern " + hdr)
+					if m == nil {
+						return fail(i, "bad callee header %s", hdr)
+					}
+					dc.ParamN = names(parseParams(m[3]))
+					dc.ResultN = names(parseParams(m[4]))
+					hdr = hdr[:k]
+				}
+				for _, cl := range strings.Split(body, ";") {
+					cl = strings.TrimSpace(cl)
+					switch {
+					case cl == "pure":
+						dc.Pure, dc.ModSet = true, true
+					case strings.HasPrefix(cl, "modifies"):
+						dc.ModSet = true
+						for _, k := range strings.Split(strings.TrimSpace(cl[8:]), ",") {
+							if k = strings.TrimSpace(k); k != "" && k != "nothing" {
+								dc.Modifies = append(dc.Modifies, k)
+							}
+						}
+					case strings.HasPrefix(cl, "ensures "):
+						e, err := mustExpr(i, cl[8:])
+						if err != nil {
+							return err
+						}
+						dc.Ensures = append(dc.Ensures, e)
+						dc.EnsSrc = append(dc.EnsSrc, cl[8:])
+					case cl == "":
+					default:
+						return fail(i, "unknown callee clause %q", cl)
+					}
+				}
+				if cur.DynCallee == nil {
+					cur.DynCallee = map[string]*Contract{}
+				}
+				cur.DynCallee[strings.TrimSpace(hdr)] = dc
 			case strings.HasPrefix(d, "exit hint "):
 				e, err := mustExpr(i, d[10:])
 				if err != nil {
